@@ -1028,3 +1028,35 @@ def rule_prefix_test_direction(chk, rid):
                    c, mod, key=f"direction:{mn}")
         chk.ob(rid, f"{ci.qual}.{mn}", found >= 1, f"{found} key/mount prefix test(s) in {mn}", fn, mod, key=f"present:{mn}", nontrivial=False)
     chk.floor(rid, n, 3, "directed prefix tests")
+
+
+def rule_metadata_write_never_decorates_data(chk, rid):
+    """MemoryCache: an entry is served from one slot holding (data, metadata); the data-presence witness is the `metadata_only` set.
+    A metadata-only write (progress metadata of an evaluation that missed the cache earlier) must not land on a slot that holds the
+    data another evaluation has stored meanwhile: the reader would get that data labelled with foreign, incomplete metadata whose
+    status may already say ready. So the metadata assignment is reached only for a placeholder: either the slot was just re-created
+    as a placeholder or the key is known to be in `metadata_only`."""
+    repo = chk.repo
+    chk.rule(rid, "MemoryCache.store_metadata writes only onto a placeholder: every path to `self.storage[key].metadata = ...` re-creates the "
+                  "slot as a placeholder (State() + metadata_only.add) or has established `key in self.metadata_only`")
+    m = repo.module("liquer.cache")
+    fn = repo.func("liquer.cache", "MemoryCache.store_metadata")
+    C = "liquer.cache.MemoryCache.store_metadata"
+    cfg = CFG(fn)
+    writes = [n for n in cfg.nodes if n.kind == "stmt" and isinstance(n.ast, ast.Assign) and U(n.ast.targets[0]).startswith("self.storage[") and U(n.ast.targets[0]).endswith("].metadata")]
+    if not writes:
+        chk.ob(rid, C, False, "no assignment to the slot's metadata found", fn, m, key="placeholder-only")
+        return
+    creates = [n.id for n in cfg.nodes if n.kind == "stmt" and isinstance(n.ast, ast.Assign) and U(n.ast.targets[0]).startswith("self.storage[")
+               and not U(n.ast.targets[0]).endswith(".metadata") and isinstance(n.ast.value, ast.Call) and call_name(n.ast.value) == "State"]
+    adds = [cfg.node_of(c) for c in calls_in(fn, tail="add") if call_recv(c) == "self.metadata_only"]
+    for w in writes:
+        keytxt = U(w.ast.targets[0])[len("self.storage["):-len("].metadata")]
+        safe_edges = [(t.id, lab) for t in cfg.nodes if t.kind == "test" for lab in ("T", "F")
+                      if any(x[1] == f"{keytxt} in self.metadata_only" and x[2] is True for x in literals_of_test(t.ast, lab))]
+        # placeholder creation = State() slot followed by metadata_only.add on every path to the write
+        good_creates = [c for c in creates if adds and all(cfg.must_pass(c, w.id, adds) for _ in [0])]
+        unguarded = w.id in cfg.reachable(cfg.entry, avoid=good_creates, avoid_edges=safe_edges)
+        chk.ob(rid, C, not unguarded, "the metadata is written onto a placeholder only" if not unguarded else
+               "the metadata can be written onto a slot that holds data (stored meanwhile by another evaluation of the same key): a reader gets "
+               "that data with this evaluation's progress metadata, whose status may already say ready", w.ast, m, key="placeholder-only")
